@@ -121,8 +121,8 @@ def run(ch, config, res):
     while failure is None and i < nops:
         i += 1
         with ch.scope("op#%d" % i):
-            k = wl.weighted("op", [6, 3, 3, 2, 1, 1, 2]) if model else 0
-            op = ["add", "update", "disable", "enable", "move", "remove", "restart"][k]
+            k = wl.weighted("op", [6, 3, 3, 2, 1, 1, 2, 2]) if model else 0
+            op = ["add", "update", "disable", "enable", "move", "remove", "restart", "retouch"][k]
             n = NAMES[wl.int("name", len(NAMES))]
             label = "op %d %s(%s)" % (i, op, n)
             if wl.flag("refused_first", 1, 6):
@@ -161,6 +161,32 @@ def run(ch, config, res):
                         kinds.add("c:%s%s" % (E.cond_kind(c), "!" if E.cond_negated(c) else ""))
                     for a in acts:
                         kinds.add("a:" + a[0])
+            elif op == "retouch":
+                # the stored definition submitted again with exactly one thing changed: the match type, or the negation of
+                # its first header condition ("nothing changed" short-cuts must notice the one thing that did)
+                j = find(n)
+                if j == -1:
+                    continue
+                m = model[j]
+                conds, acts, mt = list(m.conds), m.acts, m.mt
+                what = wl.int("what", 2)
+                if what == 0:
+                    mt = "allof" if mt == "anyof" else "anyof"
+                else:
+                    for ci, c in enumerate(conds):
+                        if E.cond_kind(c) == "header" and isinstance(c[1], str) and c[1] in (":is", ":contains", ":matches", ":notis", ":notcontains", ":notmatches"):
+                            flipped = (":not" + c[1][1:]) if not c[1].startswith(":not") else (":" + c[1][4:])
+                            conds[ci] = (c[0], flipped) + tuple(c[2:])
+                            break
+                    else:
+                        mt = "allof" if mt == "anyof" else "anyof"
+                rc = E.classify(lambda: fs.updatefilter(n, n, conds, acts, mt))
+                if rc[0].startswith("raised:"):
+                    failure = Failure(PROP, "C19.cond", "%s: re-submitting %r raised %s: %s" % (label, (conds, acts, mt), rc[0][7:], rc[2]), {})
+                    break
+                if rc[0] == "ok":
+                    m.conds, m.mt = conds, mt
+                res.count("retouches")
             elif op == "disable":
                 E.classify(lambda: fs.disablefilter(n))
                 if find(n) != -1:
